@@ -261,7 +261,11 @@ def run():
             # using fixed bit for differentiating between QUIC and D-TLS (For further information take a look at RFC 9287)
             if ((int(packet.tls_data[0]) & 0x40) >> 6) == 1 or args.greasy:
                 # QUIC Packet
-                handle_quic_packet(packet, keylog, quic_sessions, portmap, keep_original_ports)
+                try:
+                    handle_quic_packet(packet, keylog, quic_sessions, portmap, keep_original_ports)
+                except Exception as e:
+                    # a datagram that only looks like QUIC (or a damaged one) must not abort the run
+                    logging.warning(f"Could not handle UDP datagram {packet.get_params()}: {e}")
 
             else:
                 # D-TLS Packet
